@@ -356,7 +356,9 @@ def observe(data: Dict[str, Any], counters: Dict[str, int]) -> Dict[str, Any]:
         k = 0
         if out == 'ok':
           try:
-            k = uni.idx(encode(res))
+            rec = encode(res)
+            # (a result that still contains the missing marker is not a value of the universe)
+            k = -1 if _has_missing(rec) and rec['t'] != 'missing' else uni.idx(rec)
           except NotEncodable:
             k = -1
         eacc.append(out)
@@ -513,8 +515,13 @@ def run_universe(chk, u: str, timeout: int = 1500, only_sig: Dict[str, Any] = No
         why, last, tag = _why(item[1]) if law == 'ExtendNarrow' else ('', '', '')
         clause = {'ExtendNarrow': 'narrow', 'ExtendCompat': 'base_compatible', 'ExtendDefault': 'default',
                   'ExtendBase': 'base_unchanged'}[law]
+        shape = extension_shape(c, b)
+        if shape == 'frozen_child' and tag == 'frozen':
+          # the base rejects the witness because the base itself is frozen (to another value): not the situation of
+          # C04-F4 (a frozen child over constraints of an unfrozen base)
+          shape = 'frozen_over_frozen'
         sig = {'law': 'ExtendNarrow', 'clause': clause, 'c': family(c), 'b': family(b), 'c_mods': mods(c),
-               'b_mods': mods(b), 'shape': extension_shape(c, b), 'why': why, 'why_last': last, 'why_tag': tag}
+               'b_mods': mods(b), 'shape': shape, 'why': why, 'why_last': last, 'why_tag': tag}
         det = {'universe': u, 'child': describe(c), 'base': describe(b), 'extended': e['repr'],
                'value': show(item[0]), 'note': list(item[1]) if law != 'ExtendNarrow' else why}
       elif law == 'CompatSound':
